@@ -15,6 +15,7 @@ def run(ctx):
     value_order_arms(ctx)         # first --sort-by innermost => runs last => most significant under stable sorting
     specs = [('k_number_order_axioms', 'number-order-axioms', 'Ord for NumberValue: antisymmetric, reflexive, cmp==Equal <=> ==, agrees with the real order (parser normal form, |n| < 2^53 or non-integral)'),
              ('k_zero_spellings', 'zero-spellings', 'the integer literals 0 and -0 are one number: equal, unordered, and in the same relation to every other number'),
+             ('k_number_cmp_total_preorder_full', 'number-order-preorder', 'Ord for NumberValue is antisymmetric and transitive over all u64 / i64 / finite f64 (no range restriction)'),
              ('k_scalar_rank_and_eq_hash', 'scalar-rank', 'null < false < true < strings < numbers; cmp==Equal <=> ==; Eq => equal hash transcript')]
     # k_array_order_lexicographic (arrays under Kani) does not finish in 15 min (Vec<JsonValue> element code, see DESIGN 4): arrays are order.arms (Engine M)
     if not ctx.quick:
